@@ -530,10 +530,15 @@ func project(rv reflect.Value) tvNode {
 		if rv.Kind() == reflect.Interface {
 			g = "iface"
 		}
-		if rv.IsNil() {
-			return tvNode{"g": g, "nil": true, "a": []tvNode{}}
+		n := tvNode{"g": g, "nil": true, "a": []tvNode{}}
+		if rv.Kind() == reflect.Ptr && t.Elem().Kind() == reflect.Struct && embedsItself(t.Elem(), t.Elem(), 0) {
+			n["cyc"] = true // also for a nil pointer: the encoders build the field plan of the target type anyway
 		}
-		return tvNode{"g": g, "nil": false, "a": []tvNode{project(rv.Elem())}}
+		if rv.IsNil() {
+			return n
+		}
+		n["nil"], n["a"] = false, []tvNode{project(rv.Elem())}
+		return n
 	case reflect.Slice, reflect.Array:
 		a := []tvNode{}
 		for i := 0; i < rv.Len(); i++ {
